@@ -253,6 +253,9 @@ func (c *Ctx) closePhase() {
 // Case says whether case n of the current phase belongs to this child, and if
 // so records it in the progress marker.
 func (c *Ctx) Case(n uint64) bool {
+	if racePass && !strings.HasPrefix(c.phaseName, "concurrent") {
+		return false
+	}
 	g := c.base + n
 	if c.Only >= 0 {
 		if uint64(c.Only) != g {
